@@ -54,7 +54,8 @@ def parseEv (t : String) : Option Ev :=
   let body := (t.drop 1).toString
   let ns := (body.splitOn ",").mapM String.toNat?
   match (t.take 1).toString, ns with
-  | "S", some [a, b] => some (.syn a (b != 0))
+  | "S", some [a, b] => some (.syn a (b != 0) (if b != 0 then 1 else 0) 0)
+  | "S", some [a, b, m, c] => if m ≤ 2 ∧ (c ≤ 2 ∨ c ≥ 10) then some (.syn a (b != 0) m c) else none
   | "D", some [a, b, c] => if b ≤ 1048576 then some (.data a b (c != 0)) else none
   | "W", some [a, b] => some (.wu a b)
   | "R", some [a, b] => if b = 0 then none else some (.rst a b)
@@ -75,6 +76,8 @@ structure MSt where
   state : MState
   inWin : Int := 65536     -- what the server still advertises for this stream
   outWin : Int             -- what the client still grants the server on this stream
+  decl : Option Nat := none  -- Content-Length announced for the request body
+  got : Nat := 0           -- body bytes sent so far
   deriving Repr
 
 structure Mon where
@@ -157,7 +160,7 @@ def monOut (m : Mon) : List Tok → Except String Mon
 def monEvent (adv : Nat) (m : Mon) (e : Ev) (toks : List Tok) (closed : Bool) : Except String Mon :=
   if m.void then .ok m else
   match e with
-  | .syn id fin =>
+  | .syn id fin meth cl =>
     if id = 0 then .ok m
     else if id % 2 = 0 ∨ id < m.maxSeen then
       if goawayCode toks = some 1 then .ok m else .error "bad-stream-id-accepted"
@@ -165,10 +168,18 @@ def monEvent (adv : Nat) (m : Mon) (e : Ev) (toks : List Tok) (closed : Bool) : 
       if rstCode toks id = some 1 then monOut m toks else .error "duplicate-syn-accepted"
     else
       let live := (m.streams.filter (·.state ≠ .closed)).length
+      -- a request that announces a body (no FIN) must not be a HEAD and must carry a usable Content-Length
+      let malformed := !fin && (meth == 2 || cl == 1 || cl == 2)
       let m := { m with maxSeen := id,
-                        streams := m.streams ++ [{ id, state := if fin then .hcr else .open, outWin := m.iws }] }
+                        streams := m.streams ++ [{ id, state := if fin then .hcr else .open, outWin := m.iws,
+                                                   decl := if !fin ∧ cl ≥ 10 then some (cl - 10) else none }] }
       if live + 1 > adv then (if closed then .ok m else .error "max-streams-not-enforced")
-      else if ((rstCode toks id).isSome ∧ rstCode toks id ≠ some 5) ∨ (goawayCode toks).isSome ∨ closed then
+      else if closed then .error "connection-killed"
+      else if malformed then
+        match rstCode toks id with
+        | none => .error "malformed-request-accepted"
+        | some c => if c = 1 then monOut m toks else .error "wrong-reset-code"
+      else if ((rstCode toks id).isSome ∧ rstCode toks id ≠ some 5) ∨ (goawayCode toks).isSome then
         .error "syn-refused"
       else monOut m toks
   | .data id len fin =>
@@ -189,14 +200,28 @@ def monEvent (adv : Nat) (m : Mon) (e : Ev) (toks : List Tok) (closed : Bool) : 
         | none => .error "data-on-half-closed-accepted"
         | some c => if c = 9 then monOut m toks else .error "wrong-reset-code"
       | .open =>
-        if (len : Int) > min st.inWin m.connIn then
+        let over := match st.decl with | some dl => decide (st.got + len > dl) | none => false
+        let short := fin && (match st.decl with | some dl => decide (dl ≠ st.got + len) | none => false)
+        if over then
+          -- more body than announced: PROTOCOL_ERROR (FLOW_CONTROL_ERROR is as good if the window is exceeded too)
+          match rstCode toks id with
+          | none => .error "content-length-exceeded-accepted"
+          | some c =>
+            if c = 1 ∨ (c = 7 ∧ (len : Int) > min st.inWin m.connIn) then monOut m toks else .error "wrong-reset-code"
+        else if (len : Int) > min st.inWin m.connIn then
           match rstCode toks id with
           | none => .error "over-window-data-accepted"
           | some c => if c = 7 then monOut m toks else .error "wrong-reset-code"
+        else if short then
+          -- END_STREAM before the announced length: the frame itself is within the windows, the request is not
+          let m := mUpd { m with connIn := m.connIn - len } id fun x => { x with inWin := x.inWin - len }
+          match rstCode toks id with
+          | none => .error "content-length-short-accepted"
+          | some c => if c = 1 then monOut m toks else .error "wrong-reset-code"
         else if (rstCode toks id).isSome ∧ rstCode toks id ≠ some 5 then .error "data-refused-within-window"
         else
           let m := mUpd { m with connIn := m.connIn - len } id fun x =>
-            { x with inWin := x.inWin - len, state := if fin then .hcr else x.state }
+            { x with inWin := x.inWin - len, got := x.got + len, state := if fin then .hcr else x.state }
           monOut m toks
   | .wu id delta =>
     let d : Int := (delta % 2147483648 : Nat)
@@ -248,6 +273,9 @@ def monitor (adv : Nat) : Mon → List Ev → List String → Option String
   | m, e :: es, g :: gs =>
     if g == "closed" ∨ g == "stop" then none else
     let closed := gs.head? == some "closed"
+    -- only a SYN_STREAM beyond the advertised stream limit entitles the server to drop the connection
+    let isSyn := match e with | .syn .. => true | _ => false
+    if closed ∧ !isSyn ∧ !m.void then some "connection-killed" else
     match monEvent adv m e (parseGroup g) closed with
     | .error c => some c
     | .ok m' => if closed ∨ gs.head? == some "stop" then none else monitor adv m' es gs
@@ -263,15 +291,19 @@ def run (op impl : String) : Ans :=
       let r := runScript false { adv := a } es
       let model := renderRun r
       let raced := renderRun (runScript true { adv := a } es) != model
-      let bad := impl.startsWith "PANIC" || (impl.splitOn "HANG").length > 1 || (impl.splitOn "PANIC").length > 1
+      let panicked := (impl.splitOn "PANIC").length > 1
+      let hung := (impl.splitOn "HANG").length > 1
       let kinds := es.map fun e => match e with
-        | .syn .. => "syn" | .data .. => "data" | .wu .. => "wu" | .rst .. => "rst" | .iws .. => "iws" | .ping .. => "ping"
+        | .syn _ _ 2 _ => "synhead" | .syn _ false _ 1 => "synbadcl" | .syn _ false _ 2 => "synbadcl"
+        | .syn _ false _ (_ + 10) => "syncl" | .syn .. => "syn" | .data .. => "data" | .wu .. => "wu" | .rst .. => "rst" | .iws .. => "iws" | .ping .. => "ping"
         | .hcmd _ (.read _) => "hread" | .hcmd _ (.write _) => "hwrite" | .hcmd _ _ => "hfin"
       let outs := (r.1.flatMap id).map fun o => match o with
         | .rst _ c => s!"rst{c}" | .goaway _ c => s!"goaway{c}" | .ping _ => "echo" | .wu 0 _ => "wuconn"
         | .wu _ _ => "wustream" | .reply .. => "reply" | .data _ 0 _ => "datafin" | .data .. => "dataout"
       let verdict :=
-        if bad then "FAIL:panic-or-hang"
+        -- a crash or a hang on individually legal frames is a failure whatever the model predicts
+        if panicked then "FAIL:server-panic"
+        else if hung then "FAIL:server-hang"
         else if raced then "skip"
         else match monitor a {} es (impl.splitOn " ") with
           | some c => "FAIL:" ++ c
